@@ -362,9 +362,13 @@ def check_exchange(S, rec, rng):
     version = rng.choice(["HTTP/1.0", "HTTP/1.1"])
     seen = {}
 
-    plan = rng.choice(["normal"] * 6 + ["restart_with_length", "raise_before_body", "restart_without_length", "empty_headers", "empty_headers"])
-    if plan == "empty_headers":
+    plan = rng.choice(["normal"] * 6 + ["restart_with_length", "raise_before_body", "restart_without_length", "empty_headers", "empty_headers", "raise_mid_body", "raise_mid_body"])
+    mid_empty = plan == "raise_mid_body" and rng.random() < 0.5  # ... with an empty response header list
+    if plan == "empty_headers" or mid_empty:
         with_cl = False
+    if plan == "raise_mid_body":
+        use_write = False
+        chunks = [c for c in chunks if c] or [b"xyz"]
 
     reuse_headers = plan == "normal" and rng.random() < 0.25
     shared_h = []
@@ -411,8 +415,17 @@ def check_exchange(S, rec, rng):
             h = [("X-App", "1"), ("X-App", "2")]
             if with_cl:
                 h.append(("Content-Length", str(sum(map(len, chunks)))))
-        if plan == "empty_headers":
+        if plan == "empty_headers" or mid_empty:
             h = []
+        if plan == "raise_mid_body":
+            # fault: the application fails after its first body chunk went out
+            start_response(status, h)
+
+            def failing():
+                yield chunks[0]
+                raise ZeroDivisionError("application failed in the middle of the body")
+
+            return failing()
         if plan == "restart_with_length":
             # headers announced first without a length, then replaced (exc_info) before anything was written
             start_response("500 Early", [("X-App", "0")])
@@ -504,6 +517,23 @@ def check_exchange(S, rec, rng):
     cl0 = [v for k, v in resp["headers"] if k.lower() == "content-length"]
     if te0 and cl0:
         return rbad("C19/content-length-and-chunked-framing-together", f"{resp['headers']!r}")
+    if plan == "raise_mid_body":
+        # what reached the client must not pass for a complete response with another body than the application produced
+        rec.observe("application_failed_mid_body")
+        code = int(status[:3])
+        bodyless = method == "HEAD" or 100 <= code < 200 or code in (204, 304)
+        if bodyless:
+            return
+        if te0:
+            dec, why = dechunk_response(resp["rest"])
+            complete, got = dec is not None, dec
+        elif cl0:
+            complete, got = len(resp["rest"]) == int(cl0[0]), resp["rest"]
+        else:
+            complete, got = True, resp["rest"]  # delimited by the end of the connection
+        if complete and got != chunks[0] and got != payload:
+            return rbad("C19/failed-response-delivered-as-complete", f"the application produced {chunks[0]!r} and failed; the client received a complete response with the body {got[:120]!r}...")
+        return
     if plan == "raise_before_body":
         # the server answers with its own error page: only the framing is checked
         if cl0 and len(resp["rest"]) != int(cl0[0]) and method != "HEAD":
